@@ -361,9 +361,9 @@ def load_known() -> tuple[dict[tuple[str, str], str], list[str]]:
 def run_property(prop: str, tier: str, run: Callable[[Ctx], None], meta: dict) -> int:
     t0 = time.time()
     seed = int(os.environ.get("VERIF_SEED", "0") or 0)
-    evidence_path = os.path.join(VERIF, "evidence", f"{prop}.json")
+    evidence_path = os.path.join(os.environ.get("VERIF_EVIDENCE_DIR") or os.path.join(VERIF, "evidence"), f"{prop}.json")
     os.makedirs(os.path.dirname(evidence_path), exist_ok=True)
-    out_dir = os.path.join(VERIF, "out")
+    out_dir = os.environ.get("VERIF_OUT_DIR") or os.path.join(VERIF, "out")
     try:
         repo = Repo()
         ctx = Ctx(prop, tier, repo)
@@ -372,8 +372,9 @@ def run_property(prop: str, tier: str, run: Callable[[Ctx], None], meta: dict) -
         counts: dict[str, int] = {}
         for inst in ctx.instances:
             counts[inst.rule] = counts.get(inst.rule, 0) + 1
+        has_finding = {i.rule for i in ctx.instances if i.status == "finding"}
         for rid, floor in ctx.floors.items():
-            if counts.get(rid, 0) < floor:
+            if counts.get(rid, 0) < floor and rid not in has_finding:
                 raise AnalysisError(
                     f"rule {rid} examined {counts.get(rid, 0)} instance(s), fewer than the floor {floor} "
                     f"confirmed on the pinned tree (anchors moved or vanished)"
